@@ -196,6 +196,7 @@ package packets
 //@ ensures message-properties-kept: r0.PayloadFormat == p.PayloadFormat && r0.PayloadFormatFlag == p.PayloadFormatFlag && r0.MessageExpiryInterval == p.MessageExpiryInterval && r0.ContentType == p.ContentType && r0.ResponseTopic == p.ResponseTopic
 //@ ensures correlation-data-kept: sameBytes(r0.CorrelationData, p.CorrelationData)
 //@ ensures user-properties-kept: len(r0.User) == len(p.User) && (forall i int :: 0 <= i && i < len(p.User) ==> r0.User[i] == p.User[i])
+//@ ensures connect-properties-kept: r0.SessionExpiryInterval == p.SessionExpiryInterval && (r0.SessionExpiryIntervalFlag <==> p.SessionExpiryIntervalFlag) && r0.RequestProblemInfo == p.RequestProblemInfo && (r0.RequestProblemInfoFlag <==> p.RequestProblemInfoFlag) && r0.RequestResponseInfo == p.RequestResponseInfo && r0.ReceiveMaximum == p.ReceiveMaximum && r0.TopicAliasMaximum == p.TopicAliasMaximum && r0.MaximumPacketSize == p.MaximumPacketSize && r0.AuthenticationMethod == p.AuthenticationMethod
 //@ ensures alias-not-transferred: !allowTransfer ==> r0.TopicAlias == 0 && !r0.TopicAliasFlag
 //@ ensures alias-transferred: allowTransfer ==> r0.TopicAlias == p.TopicAlias && r0.TopicAliasFlag == p.TopicAliasFlag
 // verif:loop packets.Properties.Copy 1
@@ -357,3 +358,6 @@ package packets
 //@ ensures C26-payload-is-the-tail-unchanged: r0 == nil ==> (forall i int :: 0 <= i && i < len(pk.Payload) ==> buf.bdata[buf.blen - len(pk.Payload) + i] == pk.Payload[i])
 //@ ensures only-the-buffer-grows: buf.blen >= old(buf.blen) && buf.blen <= old(buf.blen) + 4294967295 && buf.rpos == old(buf.rpos)
 //@ ensures earlier-bytes-kept: forall i int :: 0 <= i && i < old(buf.blen) ==> buf.bdata[i] == old(buf.bdata[i])
+
+// verif:func packets.Packet.FormatID pure
+//@ ensures r0 == fmtID(pk.PacketID)
